@@ -185,11 +185,11 @@ class Documents(SubCheck):
         self.svg = svg
         sizes = SIZES if tier == "thorough" else ["0.01", "3", "100", "10000"]
         vorig = [("0", "0"), ("-5.5", "7.25")]
-        self.p = Product(PARS + WS_PARS, sizes, sizes, sizes, sizes, vorig, SUPPLY + ["nested"], [True, False])
+        self.p = Product(PARS + WS_PARS, sizes, sizes, sizes, sizes, vorig, SUPPLY + ["nested", "nested-scaled"], [True, False])
         if tier != "thorough":
             # quick: the full par x supply table on a pairwise-reduced size lattice
             self.p = Product(PARS + WS_PARS, ["0.01", "100"], ["3", "10000"], ["3", "100"], ["0.01", "100"], vorig,
-                             SUPPLY + ["nested"], [True, False])
+                             SUPPLY + ["nested", "nested-scaled"], [True, False])
         self.bounds = dict(pars=len(PARS) + len(WS_PARS), supply=SUPPLY)
 
     def size(self):
@@ -209,7 +209,13 @@ class Documents(SubCheck):
         kw = dict(reify=c["reify"])
         ppi = 96
         sup = c["supply"]
-        if sup in ("attr-num", "nested"):
+        post = 1
+        if sup == "nested-scaled":
+            # the viewport as a nested svg at (10,10) inside a root whose own viewBox scales by 2: inner first, then outer
+            c["ex"], c["ey"] = "10", "10"
+            attrs += ['x="10"', 'y="10"']
+            post = 2
+        if sup in ("attr-num", "nested", "nested-scaled"):
             attrs += ['width="%s"' % c["ew"], 'height="%s"' % c["eh"]]
         elif sup == "attr-unit":
             # inches at ppi 96 where ew/96 is a short decimal, else picas; height in points (4/3 px).  The library
@@ -239,6 +245,9 @@ class Documents(SubCheck):
         rx, ry, rw, rh = F(c["vbx"]) + F(c["vbw"]) / 4, F(c["vby"]) + F(c["vbh"]) / 8, F(c["vbw"]) / 2, F(c["vbh"]) / 4
         doc = '<svg %s><rect x="%s" y="%s" width="%s" height="%s"/></svg>' % (
             " ".join(attrs), float(rx), float(ry), float(rw), float(rh))
+        if sup == "nested-scaled":
+            inner = doc.replace('xmlns="http://www.w3.org/2000/svg" ', "")
+            doc = '<svg xmlns="http://www.w3.org/2000/svg" width="200" height="200" viewBox="0 0 100 100">%s</svg>' % inner
         if sup == "nested":
             # the same viewport as a nested svg at the origin of a root that establishes no viewport transform of its own
             # but carries a (different) preserveAspectRatio, which must not reach the nested element
@@ -256,14 +265,14 @@ class Documents(SubCheck):
         out.nontrivial.append((align, mos, sup, c["ew"], c["eh"], c["vbw"], c["vbh"], c["vbx"], tags["ws"]))
         try:
             d = svg.SVG.parse(io.StringIO(doc), ppi=ppi, **kw)
-            m = svg.Matrix(d.viewbox_transform if sup != "nested" else "")
+            m = svg.Matrix(d.viewbox_transform if not sup.startswith("nested") else "")
             shapes = [e for e in d.elements() if isinstance(e, svg.Rect)]
         except Exception as e:  # noqa
             out.fail("SVG.parse(%r, %r) raised %s" % (doc, kw, type(e).__name__), None, repr(e), exc=type(e).__name__, **tags)
             return out
         g = (m.a, m.b, m.c, m.d, m.e, m.f)
         out.outcome = tuple(round(x, 10) for x in g)
-        if sup != "nested" and not mat_close(g, exp, out, "SVG.parse(...).viewbox_transform of %r %r" % (doc, kw), tags):
+        if not sup.startswith("nested") and not mat_close(g, exp, out, "SVG.parse(...).viewbox_transform of %r %r" % (doc, kw), tags):
             return out
         if len(shapes) != 1:
             out.fail("expected one rect from %r" % doc, 1, len(shapes), **tags)
@@ -275,7 +284,7 @@ class Documents(SubCheck):
                 got.add((round(float(seg.end.x), 9), round(float(seg.end.y), 9)))
         want = []
         for (x, y) in corners(rx, ry, rw, rh):
-            want.append((float(x * exp[0] + exp[4]), float(y * exp[3] + exp[5])))
+            want.append((float(post * (x * exp[0] + exp[4])), float(post * (y * exp[3] + exp[5]))))
         scale = max(1e-12, max(abs(v) for pt in want for v in pt))
         for wpt in want:
             if not any(abs(wpt[0] - g_[0]) <= 1e-8 * scale + 1e-9 and abs(wpt[1] - g_[1]) <= 1e-8 * scale + 1e-9 for g_ in got):
